@@ -117,7 +117,7 @@ class _Ctx:
                 return {"t": "symcall", "name": "sf_half", "of": self._int_term(scope, allow_lit=False)}
             finally:
                 self.in_symcall = False
-        opts = ["a", "a", "b"]
+        opts = ["a", "a", "b", "scaled"]
         if self.flags["tags_nonempty"]:
             opts.append("tag0")
         if self.flags["props_k"]:
@@ -135,6 +135,16 @@ class _Ctx:
         if o == "lit":
             return {"t": "lit", "v": d(st.integers(1 if self.truthy_only else 0, 3))}
         it = self.item_term(scope)
+        if o == "scaled":
+            # a method call with positional and/or keyword arguments (keyword arguments only, too)
+            form = d(st.sampled_from(["kw", "kw", "pos", "both", "none"]))
+            args = [d(st.integers(0, 2))] if form in ("pos", "both") else []
+            kwargs = {}
+            if form == "kw":
+                kwargs = d(st.sampled_from([{"k": 2}, {"plus": 1}, {"k": 0, "plus": 2}]))
+            elif form == "both":
+                kwargs = {"plus": d(st.integers(0, 2))}
+            return {"t": "call", "of": it, "name": "scaled", "args": args, "kwargs": kwargs}
         if o in ("a", "b"):
             return {"t": "attr", "of": it, "name": o}
         if o == "tag0":
